@@ -393,7 +393,12 @@ func vsGenFile(T *sim.Tape, o vsGenOpts) string {
 				extra++
 				key = fmt.Sprintf("x%d", extra%40)
 			}
-			fmt.Fprintf(&b, "%s:%s%s\n", key, []string{" ", "\t", "  "}[T.Intn(3, "sep")], sim.Pick(T, vsVals, "val"))
+			val := sim.Pick(T, vsVals, "val")
+			if T.Intn(80, "long-value") == 0 {
+				// two label values that agree in their first 8200 bytes
+				val = strings.Repeat("v", 8200) + []string{"A", "B"}[T.Intn(2, "long-value-tail")]
+			}
+			fmt.Fprintf(&b, "%s:%s%s\n", key, []string{" ", "\t", "  "}[T.Intn(3, "sep")], val)
 		case k == 3:
 			fmt.Fprintf(&b, "%s:%s\n", sim.Pick(T, vsKeys, "key"), []string{"", " ", "\t "}[T.Intn(3, "delsep")])
 		case k == 4:
